@@ -25,14 +25,20 @@ def bin_bytes(model: dict) -> bytes:
     return (block * (n // PERIOD + 1))[:n]
 
 
+def _kw(model: dict, word: str) -> str:
+    # cue keywords are case-insensitive; some authoring tools write them in lower or title case
+    case = model.get("kw_case")
+    return word.lower() if case == "lower" else (word.title() if case == "title" else word)
+
+
 def cue_text(model: dict) -> str:
-    lines = ['FILE "%s" BINARY' % model["bin_name"]]
+    lines = ['%s "%s" %s' % (_kw(model, "FILE"), model["bin_name"], _kw(model, "BINARY"))]
     for t in model["tracks"]:
-        lines.append("  TRACK %02d %s" % (t["num"], t.get("mode", "AUDIO")))
+        lines.append("  %s %02d %s" % (_kw(model, "TRACK"), t["num"], t.get("mode", "AUDIO")))
         if t.get("title") is not None:
-            lines.append('    TITLE "%s"' % t["title"])
+            lines.append('    %s "%s"' % (_kw(model, "TITLE"), t["title"]))
         for idx, mm, ss, ff in t["indices"]:
-            lines.append("    INDEX %02d %02d:%02d:%02d" % (idx, mm, ss, ff))
+            lines.append("    %s %02d %02d:%02d:%02d" % (_kw(model, "INDEX"), idx, mm, ss, ff))
     return "\n".join(lines) + "\n"
 
 
